@@ -1,7 +1,9 @@
 package main
 
 import (
+	"errors"
 	"fmt"
+	"runtime"
 	"strings"
 	"sync"
 	"sync/atomic"
@@ -1204,6 +1206,12 @@ func runAllDirected() {
 	for _, cause := range []string{"stop", "custom", "kill", "panic"} {
 		runStopTailRestart(cause)
 	}
+	for _, v := range []string{"stop-timeout", "force", "death-permanent", "death-transient"} {
+		runUnloadWhileStopping(v)
+	}
+	for k := 0; k < hk.Pick(30, 300); k++ {
+		runUnloadVsStop(k)
+	}
 	for _, mode := range []gen.ApplicationMode{temp, trans, perm} {
 		for _, sk := range []string{"stop", "timeout", "force"} {
 			for _, how := range []string{"normal", "custom", "kill", "panic"} {
@@ -1494,5 +1502,194 @@ func runStopTailRestart(cause string) {
 	}
 	if st != "running" || len(a.aliveSlots()) != 1 {
 		d.r.v("terminate-tail-overlaps-restart", "the restarted application must run: %s", ctx)
+	}
+}
+
+// --- Unload while the stop is in progress -------------------------------------------------------
+
+// runUnloadWhileStopping: a member is kept busy inside a handler, a stop begins (request or mode
+// rule) and cannot complete; ApplicationUnload must be refused; after the member is released the
+// stop must be finalized (Terminate once, state loaded) and start / stop / unload must work again.
+func runUnloadWhileStopping(variant string) {
+	id := "D/unload-while-stopping/" + variant
+	if !want(id) {
+		return
+	}
+	d := newD(id, "unload-while-stopping")
+	defer d.finish()
+	mode, n := gen.ApplicationModeTemporary, 2
+	switch variant {
+	case "death-permanent":
+		mode, n = gen.ApplicationModePermanent, 3
+	case "death-transient":
+		mode, n = gen.ApplicationModeTransient, 3
+	}
+	a := d.app(n, mode)
+	defer a.releaseAll()
+	if !d.loadStart(a, "start") || !d.settle(a) {
+		return
+	}
+	cur := a.cur()
+	busy := cur[n-1].I.PID
+	if !a.blockMember(busy) {
+		d.incon("watchdog: member did not enter the blocking handler")
+		return
+	}
+	want := gen.TerminateReasonShutdown
+	var stopErr error
+	ok := true
+	switch variant {
+	case "stop-timeout":
+		stopErr, ok = d.call("ApplicationStopWithTimeout", func() error { return node.ApplicationStopWithTimeout(a.Name, 50*time.Millisecond) })
+	case "force":
+		want = gen.TerminateReasonKill
+		stopErr, ok = d.call("ApplicationStopForce", func() error { return node.ApplicationStopForce(a.Name) })
+	case "death-permanent":
+		want = errCustom
+		killMember(cur[0].I.PID, "custom")
+		stopErr = errors.New("n/a")
+	case "death-transient":
+		want = gen.TerminateReasonPanic
+		killMember(cur[0].I.PID, "panic")
+		stopErr = errors.New("n/a")
+	}
+	if !ok || !d.settle(a) {
+		return
+	}
+	st0 := appState(a.Name)
+	if stopErr == nil {
+		d.r.v("stop-reported-success-before-stopped", "the stop request returned nil while member %s is busy in a handler (state %s)", busy, st0)
+		return
+	}
+	if st0 != "stopping" || !alive(busy) {
+		d.incon("the intended situation (state stopping with a busy member) was not reached: state=%s", st0)
+		return
+	}
+	d.fired = true
+	errU, ok := d.call("ApplicationUnload", func() error { return node.ApplicationUnload(a.Name) })
+	if !ok {
+		return
+	}
+	stU, aliveU := appState(a.Name), a.aliveSlots()
+	a.releaseMember(busy)
+	if !d.settle(a) {
+		return
+	}
+	st1 := appState(a.Name)
+	terms := a.count("terminate")
+	var got error
+	for _, c := range a.CBs() {
+		if c.Kind == "terminate" {
+			got = c.reason
+		}
+	}
+	ctx := fmt.Sprintf("%d members, mode %s, %s: one member is busy in a handler, the stop begins (state %s); ApplicationUnload -> %v (state then %s, registered members then %v); the member is released; at quiescence state=%s alive=%v callbacks=%v", n, mode, variant, st0, errU, stU, aliveU, st1, a.aliveSlots(), a.CBs())
+	d.detail["context"] = ctx
+	d.class = fmt.Sprintf("unload=%v", errU)
+	if errU == nil {
+		d.r.v("unload-succeeded-while-stopping", "ApplicationUnload returned nil while the stop was still in progress and members were alive; the stop is never finalized (Terminate callbacks %d, state %s): %s", terms, st1, ctx)
+		return
+	}
+	if st1 != "loaded" || len(a.aliveSlots()) != 0 || terms != 1 {
+		d.r.v("unload-while-stopping-stop-not-finalized", "after the refused unload and the release of the member the stop must complete (Terminate once, state loaded): %s", ctx)
+		return
+	}
+	if got != want {
+		d.r.v("unload-while-stopping-terminate-reason", "Terminate(%v), expected %v: %s", got, want, ctx)
+	}
+	// it can be started, stopped and unloaded again
+	a.attempt.Add(1)
+	errS, ok := d.call("restart", func() error { return startBy("start", a.Name) })
+	if !ok || !d.settle(a) {
+		return
+	}
+	aliveS := len(a.aliveSlots())
+	errP, ok := d.call("ApplicationStop", func() error { return node.ApplicationStop(a.Name) })
+	if !ok || !d.settle(a) {
+		return
+	}
+	errU2, _ := d.call("ApplicationUnload", func() error { return node.ApplicationUnload(a.Name) })
+	if errS != nil || aliveS != n || errP != nil || errU2 != nil || a.count("terminate") != 2 || appState(a.Name) != "unknown" {
+		d.r.v("unload-while-stopping-restart-fails", "afterwards: start -> %v (%d members), stop -> %v, unload -> %v, Terminate callbacks %d, state %s: %s", errS, aliveS, errP, errU2, a.count("terminate"), appState(a.Name), ctx)
+	}
+}
+
+// runUnloadVsStop: ApplicationUnload is called over and over while a stop request is running
+func runUnloadVsStop(k int) {
+	id := fmt.Sprintf("D/unload-vs-stop/%d", k)
+	if !want(id) {
+		return
+	}
+	rng := hk.Rng("c17", id)
+	d := newD(id, "unload-vs-stop")
+	defer d.finish()
+	n := 1 + rng.Intn(3)
+	mode := []gen.ApplicationMode{gen.ApplicationModeTemporary, gen.ApplicationModeTransient, gen.ApplicationModePermanent}[rng.Intn(3)]
+	byDeath := rng.Intn(2) == 0
+	a := d.app(n, mode)
+	if !d.loadStart(a, "start") || !d.settle(a) {
+		return
+	}
+	hk.Stress(id, map[string]float64{"proc.unreg.deleted": 0.5, "app.term.swap": 0.5, "proc.run.term.err": 0.5, "proc.run.wake": 0.2}, 300*time.Microsecond)
+	defer hk.StressOff()
+	cur := a.cur()
+	stopDone := make(chan struct{})
+	go func() {
+		defer close(stopDone)
+		if byDeath {
+			for _, m := range cur {
+				killMember(m.I.PID, "custom")
+			}
+		} else {
+			d.call("ApplicationStopWithTimeout", func() error { return node.ApplicationStopWithTimeout(a.Name, 3*time.Second) })
+		}
+	}()
+	// unload attempts until one succeeds (it must, once the stop is complete) - bounded by a watchdog
+	var errU error
+	attempts, sawRefused := 0, false
+	var aliveAtSuccess []string
+	deadline := time.Now().Add(10 * time.Second)
+	for {
+		attempts++
+		errU, _ = safe(func() error { return node.ApplicationUnload(a.Name) })
+		if errU == nil {
+			aliveAtSuccess = a.aliveSlots()
+			break
+		}
+		sawRefused = true
+		if time.Now().After(deadline) {
+			break
+		}
+		runtime.Gosched()
+	}
+	select {
+	case <-stopDone:
+	case <-time.After(20 * time.Second):
+		d.incon("watchdog: stop did not return")
+		d.wedged = true
+		return
+	}
+	hk.StressOff()
+	if !d.settle(a) {
+		return
+	}
+	if errU != nil {
+		d.incon("watchdog: unload never succeeded within 10s (last error %v, state %s)", errU, appState(a.Name))
+		return
+	}
+	d.fired = sawRefused
+	terms := a.count("terminate")
+	ctx := fmt.Sprintf("%d members, mode %s, stop by member deaths=%v; ApplicationUnload succeeded at attempt %d (members registered at that instant: %v); at quiescence alive=%v callbacks=%v", n, mode, byDeath, attempts, aliveAtSuccess, a.aliveSlots(), a.CBs())
+	d.detail["context"] = ctx
+	d.class = fmt.Sprintf("n%d/%s/death=%v", n, mode, byDeath)
+	if len(aliveAtSuccess) > 0 {
+		d.r.v("unload-succeeded-while-stopping", "ApplicationUnload returned nil while members of the application were still registered: %s", ctx)
+	}
+	if terms != 1 || len(a.aliveSlots()) != 0 {
+		if len(aliveAtSuccess) > 0 || terms == 0 {
+			d.r.v("unload-succeeded-while-stopping", "the unload cut the stop short: Terminate callback ran %d times: %s", terms, ctx)
+		} else {
+			d.r.v("unload-vs-stop-terminate-count", "Terminate callback ran %d times: %s", terms, ctx)
+		}
 	}
 }
